@@ -11,7 +11,7 @@ def run():
     n_shards = 12 if thorough else 8
     per = 5000 if thorough else 450
     termlib.mc_slices(c, thorough)
-    shards, n_w = termlib.witness_cases(c, 4, "all" if False else (3 if thorough else 1), c.seed, max_cases=200000 if thorough else 12000)
+    shards, n_w = termlib.witness_cases(c, 4, "all" if False else (3 if thorough else 1), c.seed, max_cases=400000 if thorough else 60000)
     c.extra["witness_cases"] = n_w
     for i in range(n_shards):
         args = ["--gen", per, "--gen-from", 1_000_000 + i * per, "--seed", c.seed]
